@@ -597,4 +597,57 @@ theorem step_quitCb (P : Prog) (c : Cfg) (hc : c.code = [.quitCb]) :
     refine ⟨({ c with code := [] } : Cfg).emit P (.quitcb d), by simp [step, hc, hq], by simp [emit_eq],
       step_nil (by simp [emit_eq]), emitLog P ({ c with code := [] } : Cfg) (.quitcb d), softE_emitLog _ _ _, by simp [emit_eq]⟩
 
+
+/-! ### halting with `returned` -/
+
+theorem returned_iff (P : Prog) (c c' : Cfg) : step P c = .error (.returned, c') ↔ c.code = [] ∧ c' = c := by
+  constructor
+  · intro hs
+    rcases step_error_cases hs with ⟨hc, -, h⟩ | ⟨ins, rest, hc, ⟨-, m, hm, ⟨ho, -⟩ | ⟨k, hk, hr⟩⟩ | ⟨-, hcore⟩⟩
+    · exact ⟨hc, h⟩
+    · cases ho
+    · have := (raise_error hr).2; cases k <;> simp [failOutcome] at this
+    · cases hcore <;> first | (rename_i h; have := (take_error h).1; cases this) | skip
+      all_goals first | (rename_i hr; have := (raise_error hr).2; simp [failOutcome] at this) | skip
+  · rintro ⟨hc, rfl⟩; exact step_nil hc
+
+/-- after the start an exit request always succeeds and leaves exactly the quit callback -/
+theorem exit_lands {P : Prog} {c0 c c' : Cfg} (h0 : Started c0) (hr : Reach P c0 c) (hA : AfterStart c) (ht : Trans P c c')
+    (hx : Tr.exit ∈ newTr c c') : c'.code = [.quitCb] := by
+  have hS := shapeStep_reach h0 hr ht
+  cases hS
+  case body hx' => exact absurd hx hx'
+  case exit hcode _ => exact hcode
+  case start hc hcode htr => rw [newTr_eq (new := []) (by simp [htr])] at hx; simp at hx
+  case loopOn hc hr' hcode htr => rw [newTr_eq (new := []) (by simp [htr])] at hx; simp at hx
+  case loopOff hc hr' hcode htr => rw [newTr_eq (new := [.loopReturn 0]) (by simp [htr])] at hx; simp at hx
+  case restored hc hcode htr => rw [newTr_eq (new := []) (by simp [htr])] at hx; simp at hx
+  case leave hc hcode htr => exact hcode
+  case quit hc hcode hx' hlog => exact absurd hx hx'
+  case same hcode hx' => exact absurd hx hx'
+  case dead hs hcode hx' => exact absurd hA (hx' hx)
+
+/-- before the start an exit request is not caught: the run dies -/
+theorem exit_before_start {P : Prog} {c0 c c' : Cfg} (h0 : Started c0) (hr : Reach P c0 c) (hA : ¬ AfterStart c)
+    (ht : Trans P c c') (hx : Tr.exit ∈ newTr c c') : c'.code = [] ∧ ∃ o, step P c = .error (o, c') := by
+  have hS := shapeStep_reach h0 hr ht
+  cases hS
+  case body hx' => exact absurd hx hx'
+  case exit hc hB hne hcode _ => exact absurd (open_afterStart hc hB) hA
+  case start hc hcode htr => rw [newTr_eq (new := []) (by simp [htr])] at hx; simp at hx
+  case loopOn hc hr' hcode htr => rw [newTr_eq (new := []) (by simp [htr])] at hx; simp at hx
+  case loopOff hc hr' hcode htr => rw [newTr_eq (new := [.loopReturn 0]) (by simp [htr])] at hx; simp at hx
+  case restored hc hcode htr => rw [newTr_eq (new := []) (by simp [htr])] at hx; simp at hx
+  case leave hc hcode htr => rw [newTr_eq (new := []) (by simp [htr])] at hx; simp at hx
+  case quit hc hcode hx' hlog => exact absurd hx hx'
+  case same hcode hx' => exact absurd hx hx'
+  case dead hs hcode hx' => exact ⟨hcode, hs⟩
+
+theorem blocked_of_take {P : Prog} {c c' : Cfg} {o : Outcome} {rest : List Instr}
+    (hc : c.code = .getDispatch :: rest ∨ ∃ cls t, c.code = .waitStep cls t :: rest)
+    (hs : step P c = .error (o, c')) : o = .blocked := by
+  rcases hc with hc | ⟨cls, t, hc⟩
+  · have := core_error hc rfl hs; cases this; rename_i h; exact (take_error h).1
+  · have := core_error hc rfl hs; cases this; rename_i h; exact (take_error h).1
+
 end Simpleline.Dispatch
